@@ -198,7 +198,7 @@ def rand_value(rng):
     if r < 0.35:
         v_ = S(rng.choice(["v", "p q", "", " lead", "a&b", "<x>", "50%", "q\"r"]))
         if rng.random() < 0.15:
-            v_["sub"] = True   # a str subclass is a string value
+            v_["sub"] = rng.choice([True, True, "fmt"])   # a str subclass is a string value (also one whose str()/format() say something else)
         return v_
     if r < 0.5:
         return HV(rng.choice(["h", "a&amp;b", "", "h i"]))
@@ -208,7 +208,8 @@ def rand_value(rng):
 
 
 # names that mean something to browsers / frameworks: the rules do not depend on what a name means
-SEMANTIC_NAMES = ["aria_hidden", "aria-expanded", "aria_busy_", "aria_label", "data_toggle", "data-bs-target", "hidden", "checked", "disabled", "selected", "role", "tabindex",
+SEMANTIC_NAMES = ["merge", "prepend", "args", "kwargs", "name", "children", "attrs", "x", "key", "val", "other", "add_ws", "deep", "replace", "append", "default", "data",
+                  "aria_hidden", "aria-expanded", "aria_busy_", "aria_label", "data_toggle", "data-bs-target", "hidden", "checked", "disabled", "selected", "role", "tabindex",
                   "contenteditable", "draggable", "spellcheck", "translate", "autocomplete", "value", "title", "href", "src", "xmlns", "xlink:href", "xml_lang", "http_equiv",
                   "accept_charset", "className", "htmlFor", "on_click", "onclick", "style", "for", "class", "id", "name", "type", "async_", "defer", "is_", "slot", "part"]
 
